@@ -27,8 +27,11 @@ Fixpoint empty_yield_nodes (t : tree) : nat :=
   | Node _ ch => (match flat_map yield ch with [] => 1 | _ => 0 end) + list_sum (map empty_yield_nodes ch)
   end.
 
+Lemma list_sum_cons a b : list_sum (a :: b) = a + list_sum b.
+Proof. reflexivity. Qed.
+
 Lemma list_sum_le {A} (f h : A -> nat) l : Forall (fun x => f x <= h x) l -> list_sum (map f l) <= list_sum (map h l).
-Proof. induction 1; cbn; lia. Qed.
+Proof. induction 1 as [|x l Hx _ IH]; [reflexivity|]. cbn [map]. rewrite !list_sum_cons. lia. Qed.
 
 Lemma empty_nodes_le_empty_yield t : empty_nodes t <= empty_yield_nodes t.
 Proof.
@@ -42,11 +45,16 @@ Lemma yield_or_empty t : 1 <= length (yield t) + empty_nodes t.
 Proof.
   induction t as [a|r ch IH] using tree_ind'; [cbn; lia|].
   cbn [yield empty_nodes]. destruct ch as [|c ch]; [cbn; lia|].
-  inversion IH as [|? ? Hc _]; subst. cbn [flat_map map list_sum]. rewrite app_length. lia.
+  inversion IH as [|? ? Hc _]; subst. cbn [flat_map map]. rewrite list_sum_cons, app_length. lia.
 Qed.
 
 Definition ylen (trs : list tree) : nat := list_sum (map (fun t => length (yield t)) trs).
 Definition esum (trs : list tree) : nat := list_sum (map empty_nodes trs).
+
+Lemma ylen_cons t trs : ylen (t :: trs) = length (yield t) + ylen trs.
+Proof. reflexivity. Qed.
+Lemma esum_cons t trs : esum (t :: trs) = empty_nodes t + esum trs.
+Proof. reflexivity. Qed.
 
 Lemma length_flat_map_yield trs : length (flat_map yield trs) = ylen trs.
 Proof. unfold ylen. induction trs as [|t trs IH]; [reflexivity|]. cbn. rewrite app_length, IH. reflexivity. Qed.
@@ -68,9 +76,12 @@ Proof. rewrite <- esum_app, firstn_skipn. reflexivity. Qed.
 
 Lemma length_le_ylen_esum trs : length trs <= ylen trs + esum trs.
 Proof.
-  unfold ylen, esum. induction trs as [|t trs IH]; [cbn; lia|]. cbn [length map list_sum].
+  induction trs as [|t trs IH]; [cbn; lia|]. rewrite ylen_cons, esum_cons. cbn [length].
   pose proof (yield_or_empty t). lia.
 Qed.
+
+Lemma Forall2_len {A B} (R : A -> B -> Prop) l1 l2 : Forall2 R l1 l2 -> length l1 = length l2.
+Proof. induction 1; cbn; congruence. Qed.
 
 Section MachineHeight.
   Variable g : grammar.
@@ -78,7 +89,6 @@ Section MachineHeight.
   Variable tbl : table.
   Variable w : list nat.
   Hypothesis SF : sound_facts g sts tbl.
-  Hypothesis Hw : tokens_ok g w.
 
   (* tokens on the stack plus tokens still to read; empty nodes on the stack *)
   Definition total (c : cfg) : nat := let '(_, trs, rest) := c in ylen trs + length rest.
@@ -91,7 +101,7 @@ Section MachineHeight.
     destruct (e_kind e); try discriminate.
     - destruct (rev trs); discriminate.
     - destruct (e_arg e); [|discriminate]. intros H; inversion H; subst. cbn [total empties].
-      unfold ylen, esum. cbn [map list_sum yield empty_nodes length]. destruct rest; cbn [tl length]; lia.
+      rewrite ylen_cons, esum_cons. cbn [yield empty_nodes length]. destruct rest; cbn [tl length]; lia.
     - destruct (e_arg e) as [r|]; [|discriminate]. unfold mreduce.
       destruct (nth_error (rule_infos g) r) as [ri|]; [|discriminate].
       destruct (Nat.ltb (length (cur :: ss)) (ri_n ri)); [discriminate|].
@@ -100,10 +110,9 @@ Section MachineHeight.
       destruct (e_arg e'); [|discriminate]. destruct (Nat.ltb (length trs) (ri_n ri)); [discriminate|].
       intros H; inversion H; subst. cbn [total empties].
       rewrite (ylen_split (ri_n ri) trs), (esum_split (ri_n ri) trs).
-      unfold ylen at 3. unfold esum at 3. cbn [map list_sum yield empty_nodes].
+      rewrite ylen_cons, esum_cons. cbn [yield empty_nodes].
       rewrite length_flat_map_yield, ylen_rev.
-      fold (esum (rev (firstn (ri_n ri) trs))). rewrite esum_rev.
-      fold (ylen (skipn (ri_n ri) trs)). fold (esum (skipn (ri_n ri) trs)). lia.
+      fold (esum (rev (firstn (ri_n ri) trs))). rewrite esum_rev. lia.
   Qed.
 
   Lemma msteps_mono k : forall c c', msteps g tbl k c c' -> total c <= total c' /\ empties c <= empties c'.
@@ -144,7 +153,7 @@ Section MachineHeight.
     destruct c' as [[ss' trs'] rest']. destruct (SInv_acc_total _ _ _ _ Hi' Ha) as [Et Ee].
     destruct c as [[ss trs] rest]. pose proof (SInv_total _ _ _ Hi) as Hl.
     destruct Hi as (syms & Hst & Hv & _ & _).
-    pose proof (stk_len g sts _ _ Hst) as Hlen. apply Forall2_length in Hv.
+    pose proof (stk_len g sts _ _ Hst) as Hlen. apply Forall2_len in Hv.
     pose proof (length_le_ylen_esum trs) as L. cbn [fst total empties] in *. lia.
   Qed.
 End MachineHeight.
@@ -185,7 +194,6 @@ Section Follow.
   Variable w : list nat.
   Hypothesis SF : sound_facts g sts tbl.
   Hypothesis Herr : err_col_empty g tbl.
-  Hypothesis Hw : tokens_ok g w.
 
   Notation dstate := (pstate tree unit).
   Notation dstep := (step tree unit g tbl tree_opts w None id_lexer tf (ef g) rlf).
@@ -225,7 +233,7 @@ Section Follow.
         rewrite (run_gh_run tree unit g tbl tree_opts w None id_lexer tf (ef g) rlf f s' _ ([] ++ [s])) in Hna.
         destruct (dgh f s' (out ++ filter (visible tree_opts) ev) ([] ++ [s])) as [[[r sf] o] v]. cbn [fst] in Hna.
         intros t Ht. exfalso. exact (Hna _ Ht).
-    - exfalso. exact (SInv_not_bad g sts tbl w SF Hw _ Hi Em).
+    - exfalso. exact (SInv_not_bad g sts tbl w SF _ Hi Em).
   Qed.
 End Follow.
 
@@ -238,7 +246,7 @@ Theorem height_le_tree : forall g sts tbl w t fuel,
 Proof.
   intros g sts tbl w t fuel Hv Hne Hw Hacc.
   pose proof (sound_facts_of g sts tbl Hv) as SF.
-  pose proof (acc_follow g sts tbl w SF (no_error_symbol_cell g tbl Hne) Hw fuel (init tt) []
+  pose proof (acc_follow g sts tbl w SF (no_error_symbol_cell g tbl Hne) fuel (init tt) []
                 (init_normal w) (SInv_init g sts w Hw)) as H.
   unfold never_above. rewrite tree_run_eq in Hacc.
   rewrite (run_gh_run tree unit g tbl tree_opts w None id_lexer tf (ef g) rlf fuel (init tt) [] []) in Hacc.
